@@ -174,6 +174,15 @@ def run(prop, args, seed, t0):
     ctxm = mp.get_context("fork")
     with ctxm.Pool(min(args.jobs, len(jobs)), maxtasksperchild=1) as pool:  # one fresh process per unit (z3 sorts are per process)
         results = pool.map(_worker, jobs, chunksize=1)
+    # a crashed unit is run once more on its own (a late watchdog interrupt of z3 can hit the next API call when the
+    # machine is busy); a crash that repeats is reported as a checker problem
+    again = [k for k, r in enumerate(results) if r.get("status") == "crash"]
+    if again:
+        with ctxm.Pool(1, maxtasksperchild=1) as pool:
+            for k in again:
+                first = results[k]
+                results[k] = pool.apply(_worker, (jobs[k],))
+                results[k]["crashed_once"] = (first.get("reason") or "")[-400:]
     # ---- classify ---------------------------------------------------------------------------
     violations, undecided, problems = [], [], []
     bounded_runs, early_violation_lines = [], []
